@@ -128,6 +128,10 @@ def gen_case(rng, nw):
     ops = []
     memo = {}
     for w in writes:
+        if w["op"] == "txn" and rng.chance(1, 2):
+            # the same transaction through POST /transactions or built in JavaScript (NewTransaction / ExecuteTransaction)
+            js = rng.chance(1, 2)
+            w = {"op": "jstxn" if js else "htxn", "sets": [{"ds": s_["ds"], "ents": (sc.js_safe if js else sc.no_null)(s_["ents"])} for s_ in w["sets"]]}
         if w["op"] == "batch" and rng.chance(1, 5):
             w = {"op": "hbatch", "ds": w["ds"], "ents": sc.no_null(w["ents"] + sc.gen_batch(rng, pool, memo, w["ds"], True) * rng.choice([1, 4]))}
             ops.append(w)
@@ -146,6 +150,9 @@ def gen_case(rng, nw):
             i = rng.choice(pool)
             ops.append({"op": "get", "id": sc.NS + i, "datasets": [d], "merge": True})
             ops.append({"op": "get", "id": sc.NS + i, "datasets": [], "merge": False})
+            # the same lookups through POST /query {entityId} and through the JS binding FindById
+            ops.append({"op": "hquery", "id": sc.NS + i, "datasets": [d] if rng.chance(1, 2) else [], "merge": rng.chance(1, 2)})
+            ops.append({"op": "jsfind", "id": sc.NS + i, "datasets": [d] if rng.chance(1, 2) else []})
     ops += fin_reads(nds, pool, rng)
     if rng.chance(1, 4):
         ops.append({"op": "rawkeys"})     # byte layout + iteration order of the real keys (Model/Keys.v)
